@@ -279,7 +279,13 @@ func (a *oauth2IntrospectionAuthenticator) getSubjectInformation(ctx heimdall.Co
 		return nil, err
 	}
 
-	req, err := a.createRequest(ctx.AppContext(), metadata.IntrospectionEndpoint, token, claims)
+	// only the rendered URL is required for the cache key. So, the request is created without the authentication
+	// strategy of the endpoint being applied (that may involve a call to a further system, like the retrieval of
+	// a token). That happens only if the endpoint is going to be called
+	endpointWithoutAuth := *metadata.IntrospectionEndpoint
+	endpointWithoutAuth.AuthStrategy = nil
+
+	req, err := a.createRequest(ctx.AppContext(), &endpointWithoutAuth, token, claims)
 	if err != nil {
 		return nil, err
 	}
@@ -308,6 +314,12 @@ func (a *oauth2IntrospectionAuthenticator) getSubjectInformation(ctx heimdall.Co
 
 				return entry, nil
 			}
+		}
+	}
+
+	if metadata.IntrospectionEndpoint.AuthStrategy != nil {
+		if req, err = a.createRequest(ctx.AppContext(), metadata.IntrospectionEndpoint, token, claims); err != nil {
+			return nil, err
 		}
 	}
 
